@@ -206,32 +206,16 @@ theorem readStr_rel : ∀ (f f' line : Nat) (acc r r' : List Byte), r.length ≤
           cases ht with
           | nul j j' =>
             simp only [List.length_cons] at hl hl'
-            simp only [(by decide : ¬((0:Nat) = 34 ∨ (0:Nat) = 92 ∨ (0:Nat) = 47)), (by decide : (0:Nat) ≠ 98),
-              (by decide : (0:Nat) ≠ 102), (by decide : (0:Nat) ≠ 110), (by decide : (0:Nat) ≠ 114),
-              (by decide : (0:Nat) ≠ 116), (by decide : (0:Nat) ≠ 117), if_false]
+            simp only [unesc_zero, (by decide : (0:Nat) ≠ 117), if_false]
             exact ih _ _ _ _ _ (by simp only [List.length_cons]; omega) (by simp only [List.length_cons]; omega) (.nul _ _)
           | cons e u u' he hu =>
             simp only [List.length_cons] at hl hl'
             have recur : ∀ a : List Byte, RRel StrRel (readStr f line a u) (readStr f' line a u') :=
               fun a => ih _ _ _ _ _ (by omega) (by omega) hu
-            by_cases e1 : e = 34 ∨ e = 92 ∨ e = 47
-            · simp only [e1, if_true]; exact recur _
-            simp only [e1, if_false]
-            by_cases e2 : e = 98
-            · simp only [e2, if_true]; exact recur _
-            simp only [e2, if_false]
-            by_cases e3 : e = 102
-            · simp only [e3, if_true]; exact recur _
-            simp only [e3, if_false]
-            by_cases e4 : e = 110
-            · simp only [e4, if_true]; exact recur _
-            simp only [e4, if_false]
-            by_cases e5 : e = 114
-            · simp only [e5, if_true]; exact recur _
-            simp only [e5, if_false]
-            by_cases e6 : e = 116
-            · simp only [e6, if_true]; exact recur _
-            simp only [e6, if_false]
+            cases hue : unesc e with
+            | some b => simp only [hue]; exact recur _
+            | none =>
+            simp only [hue]
             by_cases e7 : e = 117
             · simp only [e7, if_true]
               refine RRel_bind' (hex4_rel line 4 [] u u' hu) ?_
